@@ -275,6 +275,11 @@ class ExecGen:
         r = self.rng
         nargs = r.randint(0, 3)
         args = [f'a{ix}' for ix in range(nargs)]
+        shadow = None
+        if nargs and r.random() < 0.3:
+            # a parameter with the name of a global: a missing argument is null, NOT the global's value
+            shadow = r.choice(['n0', 'n1', 'g0'])
+            args[r.randrange(nargs)] = shadow
         last = nargs > 0 and r.random() < 0.2
         if name not in self.order:
             self.order.append(name)
@@ -283,6 +288,10 @@ class ExecGen:
                  'labels': ['R0', 'R1', 'G0'], 'fn_index': self.order.index(name),
                  'includes': scope_g.get('includes') if self.k.get('func_includes') else None}
         body = [self.tick()]
+        if shadow is not None:
+            self.used_hosts.add('hostObserve')
+            self.n_obs += 1
+            body.append(ir.st_expr(call('hostObserve', s(f'o{self.n_obs}'), var(shadow))))
         if r.random() < 0.45:
             # guarded recursion: depth bounded by the answers of a fresh site
             lab = self.label()
@@ -395,6 +404,8 @@ class ExecGen:
             ix = len(self.files)
             style = r.random()
             fname = f'f{ix}.bare'
+            if r.random() < self.k.get('odd_names', 0.0):
+                fname = r.choice([f"it's{ix}.bare", f'back\\slash{ix}.bare', f"q'\\{ix}.bare", f'sp ace{ix}.bare'])
             if style < 0.35:
                 ref = fname
             elif style < 0.55:
